@@ -12,44 +12,44 @@ TB = ("Trusted base: rustc nightly front end + MIR construction; the fact extrac
 
 C = {
  "C01": ("static analysis: who-may-call / who-may-write inventories, must-pass-through and origin-set rules on type-checked MIR",
-         "Decides structural necessary conditions of character preservation for every input: output assembly (one content push per token, on every path, from a single unadapted pass over the token vector; everything else pushed is blank material), text confinement (token text replaced only in Token::set_content, called by four reviewed normalisers; tokens constructed only by the lexer; no sequence operation other than iteration/get/len/push-in-lexer/retain-in-delete), no token remover, and the skip discipline of the string-rebuilding normaliser. The behaviour as a whole is not decided.",
-         "Not decided: that format_line_comment / format_compiler_directive / try_rewrite_string keep every character of the slices they re-assemble (string arithmetic); lexer value-level losslessness (C13 residue)."),
+         "Decides structural necessary conditions of character preservation for every input: output assembly (one content push per token, on every path, from a single unadapted pass over the token vector; everything else pushed is blank material), text confinement (token text replaced only in Token::set_content, called by four reviewed normalisers; tokens constructed only by the lexer; no sequence operation other than iteration/get/len/push-in-lexer/retain-in-delete), no token remover, the skip discipline of the string-rebuilding normaliser, the blank definition of the lexer's whitespace counters, and — by a symbolic slice algebra over the MIR — that the two loop-free re-assemblers (line comments, directives) append consecutive sub-slices of the token's own text that cover it completely (plus blanks / an ASCII case map / trim_ascii_end). The behaviour as a whole is not decided.",
+         "Not decided: that try_rewrite_string keeps every character of every line it pushes (loop invariant over strings); lexer value-level losslessness (C13 residue)."),
  "C02": ("static analysis: decision-table extraction (path enumeration of loop-free classifiers) evaluated on enum cubes + dominance rules on MIR",
-         "Decides the hard-break table on all (previous kind, current kind) cubes, that the table is consulted first and cannot be weakened, that the search honours Must/MustNot, that Break decisions become real newlines, the single-line-comment safety net, and the bracket-only zero entries of the spacing table. Not the behaviour as a whole.",
+         "Decides the hard-break table on all (previous kind, current kind) cubes, that the table is consulted first and cannot be weakened, that the search honours Must/MustNot, that Break decisions become real newlines, the single-line-comment safety net as a decision table of the emission step (with the calls made on every path), the bracket-only zero entries of the spacing table, and that token text changes only through the documented normalisations, each on its own token kind (who calls set_content, dispatch facts, partition / skip discipline of each re-assembler). Not the behaviour as a whole.",
          "Not decided: generic-bracket re-typing heuristics; full operator-pair gluing matrix; lines for which no wrapping is found keep input counters."),
  "C04": ("static analysis: loop-progress dataflow with inter-procedural must-advance summaries over the resolved call graph; closed panic-site inventory with re-derived guards; call-graph SCC inventory",
          "Decides structural necessary conditions of termination / abort-freedom: progress witness on every cycle path of every parser/lexer/consolidator loop (closures and combinator parameters resolved, reviewed exceptions re-verified), every panic-capable site auto-verified or in a reviewed inventory keyed by canonical operands, search cut-off with fallback, recursion inventory (7 known findings: stack exhaustion), lexer dispatch totality. Six genuine defects were found with these rules and fixed. No running-time bound, no well-foundedness proof.",
          "Not decided: polynomial time; number of conditional-directive passes; the 150 reviewed (not re-derived) invariants; add/mul overflow asserts."),
  "C06": ("static analysis: information-flow inventory (closed who-reads sets over MIR places and accessor calls)",
-         "Decides one necessary condition of layout independence: the complete inventory of program points that can observe the input's layout equals the reviewed set (the three facts the property allows, the whitespace-to-counts reduction, emission, cursor code), and every decision of a solved line overwrites the inherited counters. The two-run relation itself is not decided.",
+         "Decides one necessary condition of layout independence: the complete inventory of program points that can observe the input's layout equals the reviewed set (the three facts the property allows, the whitespace-to-counts reduction, emission, cursor code), every decision of a solved line overwrites the inherited counters, and the spacing table decides every gap: for every (previous kind, next kind) someone sets the space between them. The two-run relation itself is not decided.",
          "Not decided: lines without a wrapping solution keep input counters; that allowed readers pass no more than the allowed fact."),
  "C07": ("static analysis: decision table of the single mutable-token door, who-writes rules, dominance / loop-shape rules on MIR",
-         "Decides structural clauses of verbatim regions: ignored tokens cannot be obtained mutably (single door, Err iff ignored), marks are never removed and reach FormattedTokens before any formatter, the ignored emission arm copies the original whitespace and nothing else, asm lines fully marked and skipped by the wrapper, whole-line voiding requires all tokens ignored, the toggle scan visits every token and flips only on exact on/off. Region extent as a function of comment text is not decided.",
+         "Decides structural clauses of verbatim regions: ignored tokens cannot be obtained mutably (single door, Err iff ignored), marks are never removed and reach FormattedTokens before any formatter, the ignored emission arm copies the original whitespace and nothing else, asm lines fully marked and skipped by the wrapper, whole-line voiding requires all tokens ignored, the toggle scan visits every token and flips only on exact on/off, every logical line finished while parsing asm instructions is typed AsmInstruction on every path. Region extent as a function of comment text is not decided.",
          "Not decided: value-level boundaries of regions beyond the recognised constants."),
  "C08": ("static analysis: ORDER/AGREE rules, closed value sets of stores (origin sets), decision tables",
          "Decides emission order and counter/string pairing, the closed sets of values that can be stored into the whitespace counters (0, 1, clamp(old,1,2), min(old,1)), line-start and first-token space zeroing, the end-of-file rule and its selection, and the construction of indentation strings. Cleanliness of lines left unwrapped is input-dependent and not decided.",
          "Not decided: tokens of lines for which no wrapping was found; voided lines."),
  "C09": ("static analysis: sink-based constant-flow rule, non-interference of the newline string (uses restricted to push/len), decision tables",
-         "Decides that the only CR/LF text that can reach the output is the literal paired with the configured LineEnding, that no other CR/LF literal is appended anywhere, and that the newline string is only emitted or measured (so crlf output = lf output with terminators substituted, as far as decisions are concerned). Equivalence of CRLF and LF inputs is not decided.",
-         "Not decided: CRLF-vs-LF input equivalence (value behaviour of the lexer and of token lengths)."),
+         "Decides that the only CR/LF text that can reach the output is the literal paired with the configured LineEnding, that no other CR/LF literal is appended anywhere, that the newline string is only emitted or measured, that cached token lengths are refreshed after the string rewrite and that whole-token lengths never measure a multi-line token (so crlf output = lf output with terminators substituted, as far as decisions are concerned), and that every line-end test of the lexer treats CR and LF alike (necessary for CRLF input = LF input). The two-run equivalences themselves are not decided.",
+         "Not decided: CRLF-vs-LF input equivalence beyond the CR/LF parity of the lexer's line-end tests."),
  "C10": ("static analysis: who-reads inventory, decision table of the conversion, AGREE rules on the width computations",
-         "Decides that the indentation options are interpreted at one conversion site with the documented table, that measuring and emitting use the same settings value and pair each counter with its own string. The replacement relation between two runs is not decided.",
+         "Decides that the indentation options are interpreted at one conversion site with the documented table, that measuring, re-indenting and emitting use the same settings value and pair each counter with its own string (emitters may only append the configured strings, which are reachable only through their getters). The replacement relation between two runs is not decided.",
          "Not decided: the tab<->space relation between two runs."),
  "C11": ("static analysis: who-reads inventory and use-site classification of one field",
-         "Decides that wrap_column reaches the wrapper only as max_line_length and is used only in `length > max` and in the guarded excess. Monotonicity between two widths is not decided.",
+         "Decides that wrap_column reaches the wrapper only as max_line_length (its single use in the conversion), is used only in `length > max` and in the guarded excess, and that what is compared with it is measured independently of the configured newline with multi-line tokens counted by their last line. Monotonicity between two widths is not decided.",
          "Not decided: relations between two runs with different widths."),
  "C12": ("static analysis: dominance guards, loop skip-discipline (must-pass-through), provenance (origin sets), AGREE of terminator sets",
-         "Decides when rewriting may happen (enabled, un-ignored MultiLine literal, successful and different rewrite, own content and counters), that an interior line can be left out only when blank, provenance of everything appended, and agreement of the terminator sets. Per-line value preservation is not decided.",
+         "Decides when rewriting may happen (enabled, un-ignored MultiLine literal, successful and different rewrite, own content and counters), that an interior line can be left out only when blank, provenance of everything appended (closed mutator set), agreement of the terminator sets and the splitter automaton, and that the re-indenter writes with the same settings value the reconstructor emits with. Per-line value preservation is not decided.",
          "Not decided: that each pushed line is intact and in order."),
  "C13": ("static analysis: prefix-split discipline via canonical origin expressions, AGREE of sibling constant tables (MIR constants + HIR const initialisers), decision tables",
-         "Decides the prefix-split discipline of the scanner loop, single Eof, agreement of the AVX2/scalar/dispatch-map character sets and of the blank definition, keyword-table bijection and case-insensitive whole-word match, inline-comment classification. Boundary arithmetic of sub-lexers and of the AVX2 chunking is not decided.",
+         "Decides the prefix-split discipline of the scanner loop, single Eof, agreement of the AVX2/scalar/dispatch-map character sets and of the blank definition, keyword-table bijection and case-insensitive whole-word match, inline-comment classification, and a closed inventory of the lexer's terminator searches (needles, text searched, length added; each block-comment kind closed by its own delimiter). Boundary arithmetic of hand-written sub-lexer loops and of the AVX2 chunking is not decided.",
          "Not decided: token boundaries as a function of text; AVX2 chunk/tail arithmetic; non-empty-content clause. The AVX2 agreement rule can only read range comparisons: a table-driven rewrite is reported (fail-closed)."),
  "C14": ("static analysis: who-writes inventories, must-pass-through (push before advance), decision-table partition check, unconditional-arm rule",
          "Decides that the pass cursor only advances over pushed tokens (or past the end), that skipped directives and all conditional directives unconditionally get their own line, the exhaustive disjoint partition of directive kinds, the unconditional Eof line, and the closed set of mutators of line token lists. Ordering/parent clauses are not decided.",
          "Not decided: strictly increasing order; parent clauses; multi-pass merging."),
  "C15": ("static analysis: type-level non-interference (flow of the cursor list, shared-reference signatures, deep interior-mutability / unsafe / statics scans)",
-         "Decides clause 1 only (cursor tracking never changes the text) for every input and cursor list. Where cursors land is not decided; cursor arithmetic panics are audited under C04.b.",
-         "Not decided: clauses 2-3 (positions of reported cursors)."),
+         "Decides clause 1 (cursor tracking never changes the text) for every input and cursor list, and of clauses 2-3 one structural necessary condition: cursors are mapped independently of each other (collections and iterators of cursors are only traversed completely and element-wise). Where a cursor lands is not decided; cursor arithmetic panics are audited under C04.b.",
+         "Not decided: positions of reported cursors (clauses 2-3)."),
  "C16": ("static analysis: effect confinement (who-may-call over the resolved call graph), write-protocol dominance/origin rules, length accounting, error-discipline scan",
          "Decides for every path and schedule: only format_files can cause a file write; seek -> write -> set_len(returned length) with `?` propagation; every write_all accounted; decode-before-effect on a freshly cleared buffer; check verdict and exit-code plumbing; same writer for files and stdout. OS behaviour and path expansion are not decided.",
          "Not decided: that the OS honours seek/write/set_len; glob/dir expansion; the formatted text itself."),
@@ -97,7 +97,7 @@ def main():
         ],
         "checks": checks,
         "not_applicable": [{"property_id": k, "reason": v} for k, v in sorted(NA.items())],
-        "notes": "Family: static analysis only. Every claimed check decides structural clauses (necessary conditions visible in the shape of the resolved program) and says so; C03 and C05 are declined. Genuine defects found: 7 fixed in /repo (fix: commits), 7 recorded in known_findings.json (stack exhaustion by recursion).",
+        "notes": "Family: static analysis only. Every claimed check decides structural clauses (necessary conditions visible in the shape of the resolved program) and says so; C03 and C05 are declined. Genuine defects found: 9 fixed in /repo (fix: commits), 7 recorded in known_findings.json (stack exhaustion by recursion).",
     }
     json.dump(m, open(os.path.join(VERIF, "MANIFEST.json"), "w"), indent=1)
     print("wrote MANIFEST.json with %d checks, %d not applicable" % (len(checks), len(NA)))
